@@ -219,6 +219,18 @@ func (s *Stream) grabFrame(n int) []byte {
 	return s.frameBuf[:n]
 }
 
+// maxWireLength is the largest frame length field this stream accepts. The sender
+// limits the plaintext of a frame to MaxMessageSize; on a keyed stream the wire
+// length additionally carries the 16-byte GCM tag and, on the first protected
+// frame, the 16-byte base IV, so the receive limit must allow for that overhead
+// or a frame the sender accepted would be rejected by its peer.
+func (s *Stream) maxWireLength() uint32 {
+	if s.gcm != nil {
+		return MaxMessageSize + 32
+	}
+	return MaxMessageSize
+}
+
 // sendMessageWithEnd sends a message with specified end flag
 func (s *Stream) sendMessageWithEnd(ctx context.Context, data []byte, end byte) error {
 	if len(data) > MaxMessageSize {
@@ -296,8 +308,8 @@ func (s *Stream) ReceiveFrame(ctx context.Context) ([]byte, error) {
 	messageLength := binary.BigEndian.Uint32(header[1:5])
 
 	// Validate message size
-	if messageLength > MaxMessageSize {
-		return nil, fmt.Errorf("message too large: %d bytes (max %d)", messageLength, MaxMessageSize)
+	if messageLength > s.maxWireLength() {
+		return nil, fmt.Errorf("message too large: %d bytes (max %d)", messageLength, s.maxWireLength())
 	}
 
 	// Validate end flag (HTCondor uses values 0-10)
@@ -351,8 +363,8 @@ func (s *Stream) ReceiveFrameWithEnd(ctx context.Context) ([]byte, byte, error) 
 	messageLength := binary.BigEndian.Uint32(header[1:5])
 
 	// Validate message size
-	if messageLength > MaxMessageSize {
-		return nil, 0, fmt.Errorf("message too large: %d bytes (max %d)", messageLength, MaxMessageSize)
+	if messageLength > s.maxWireLength() {
+		return nil, 0, fmt.Errorf("message too large: %d bytes (max %d)", messageLength, s.maxWireLength())
 	}
 
 	// Validate end flag (HTCondor uses values 0-10)
